@@ -138,4 +138,17 @@ PROPERTIES = {
             part("C02.certs", shards={"quick": 16, "thorough": 16}, floor=1000),
         ],
     },
+    "C11": {
+        "level": "exploration",
+        "level_text": "differential monitor: a cached and an uncached authority over the same keys execute identical hostile operation sequences and must return the same verdict on every "
+                      "operation; a parallel variant under the race detector checks one cached authority driven from 8 goroutines against precomputed uncached verdicts",
+        "level_note": "the uncached authority is the reference, as the property defines; sequences are seeded-random over a fixed menu of replay/alteration classes",
+        "technique": "differential monitor (cached vs uncached) + race detector on the parallel variant",
+        "rule": "C11: cache differential",
+        "anchors": ["security/cert/cache.go", "security/cert/auth.go", "security/crypto/"],
+        "parts": [
+            part("C11.diff", shards={"quick": 12, "thorough": 16}, floor=300),
+            part("C11.parallel", race=True, shards={"quick": 4, "thorough": 8}, floor=50),
+        ],
+    },
 }
